@@ -129,3 +129,19 @@ Example ex_disabled :
     | _, _, _, _ => false
     end) = true.
 Proof. vm_compute. reflexivity. Qed.
+
+(* in-place fee merging (lnwallet appendFeeUpdate): two uncommitted update_fee
+   in a row occupy ONE log entry on both sides although two messages travel;
+   once the first is covered by a signature the next one is appended; the
+   commitments signed afterwards are accepted (agreement across merges) *)
+Example ex_fee_merge :
+  from_init (fun s0 =>
+    let ops := [ OSend A (UFee 3000); OSend A (UFee 3500); ODeliver B; ODeliver B;
+                 OSign A; OSend A (UFee 4000); OSend A (UFee 4500);
+                 ODeliver B; ODeliver B; ODeliver B; ORevoke B; ODeliver A;
+                 OSign A; ODeliver B; ORevoke B; ODeliver A ] in
+    let s := run ex_cfg s0 ops in
+    all_ok ex_cfg s0 ops
+    && (length (own (pA s)) =? 2)%nat && (length (peer (pB s)) =? 2)%nat
+    && (c_rate (lTail (pB s)) =? 4500) && (c_h (lTail (pB s)) =? 2)) = true.
+Proof. vm_compute. reflexivity. Qed.
